@@ -61,7 +61,7 @@ CHECKS = {
         technique="deterministic simulation: seeded operation histories with injected failing operations and restarts (volatile index dropped, only blob bytes survive, in memory and through the real file path), stepped against a plain-map reference model with independent root/proof recomputation; minimised replay files",
         text="Seeded search over operation histories x restart points x failing operations on the real MerkleBlob against an executable reference model (plain map + independent SHA-256 tree recomputation). Every step checks outcome class, failure atomicity (byte-identical blob), content, check_integrity; every restart checks reload equivalence; after calculate_lazy_hashes the root and every key's proof are recomputed independently. Exploration level: it samples (about 1.5 M histories quick, 60 M thorough); a clean batch is evidence, not proof.",
         design_ref="DESIGN.md section 3, C18",
-        note="Trusted: the harness's reference model and the sha2 crate. Restarts are clean (bytes as last written); damaged files are out of scope because the property promises nothing about them. InsertLocation::Leaf is never pointed at a freed block. Hashes are only examined after calculate_lazy_hashes.",
+        note="Trusted: the harness's reference model and the sha2 crate. Restarts are clean (bytes as last written); damaged files are out of scope because the property promises nothing about them. Hashes are only examined after calculate_lazy_hashes.",
     ),
 }
 
